@@ -196,7 +196,7 @@ func tail(s string, n int) string {
 // compareNative checks a native run of an OK path against the engine's expectation.
 func compareNative(p *PathResult, no *nativeOut) string {
 	if no.Panic != "" {
-		return "native run panicked: " + firstLines(no.Panic, 6)
+		return "native run panicked: " + firstLines(no.Panic, 24)
 	}
 	if no.AssumeFail != "" {
 		return "native run failed an assumption the engine considered satisfied"
